@@ -29,6 +29,11 @@ pub trait Env {
     fn spawn(&mut self, cmd: &str, args: &[String]) -> io::Result<SpawnOutcome>;
     /// Next word of entropy.
     fn entropy_u64(&mut self) -> u64;
+    /// How long a stub child keeps running (what a `wait()` on it blocks for). An hour by
+    /// default: waiting for a child is waiting for something the interpreter does not bound.
+    fn child_lifetime_us(&mut self) -> u64 {
+        3_600_000_000
+    }
 }
 
 thread_local! {
@@ -145,6 +150,48 @@ pub enum ChildStdout {
 pub struct Child {
     pub stdout: Option<ChildStdout>,
     _real: Option<std::process::Child>,
+}
+
+/// The parts of `std::process::Child` a caller may reach for. A stub child runs for
+/// `Env::child_lifetime_us` of simulated time: `wait` sleeps that long (simulated), `try_wait`
+/// finds it still running, `kill` ends it.
+impl Child {
+    pub fn wait(&mut self) -> io::Result<std::process::ExitStatus> {
+        match self._real.as_mut() {
+            Some(real) => real.wait(),
+            None => {
+                if let Some(us) = with_env(|e| e.map(|e| e.child_lifetime_us())) {
+                    with_env(|e| {
+                        if let Some(e) = e {
+                            e.sleep_us(us)
+                        }
+                    });
+                }
+                Ok(std::process::ExitStatus::default())
+            }
+        }
+    }
+
+    pub fn try_wait(&mut self) -> io::Result<Option<std::process::ExitStatus>> {
+        match self._real.as_mut() {
+            Some(real) => real.try_wait(),
+            None => Ok(None),
+        }
+    }
+
+    pub fn kill(&mut self) -> io::Result<()> {
+        match self._real.as_mut() {
+            Some(real) => real.kill(),
+            None => Ok(()),
+        }
+    }
+
+    pub fn id(&self) -> u32 {
+        match self._real.as_ref() {
+            Some(real) => real.id(),
+            None => 1,
+        }
+    }
 }
 
 impl Command {
